@@ -68,6 +68,9 @@ func main() {
 }
 
 func emitBlock(h *harness, out *hx.Out, blk *block, st *stats) {
+	if fl := blk.forkLine(); fl != "" {
+		out.Emit(fl, "ok")
+	}
 	line := blk.resetLine()
 	out.Do(line, func() string { return h.reset(blk) })
 	if blk.real {
